@@ -116,7 +116,19 @@ func c16Eval(r *hx.Run, cs c16Case) {
 
 	// the selectors of the expression, with their positions
 	node, _ := promParser.ParseExpr(cs.Expr)
-	hasFallback := strings.Contains(cs.Expr, "or vector(")
+	// selectors directly guarded by an `or vector(...)` fallback are pint's documented exemption
+	guarded := map[string]bool{}
+	promParser.Inspect(node, func(n promParser.Node, _ []promParser.Node) error {
+		if be, ok := n.(*promParser.BinaryExpr); ok && be.Op == promParser.LOR && strings.HasPrefix(be.RHS.String(), "vector(") {
+			promParser.Inspect(be.LHS, func(m promParser.Node, _ []promParser.Node) error {
+				if vs, ok := m.(*promParser.VectorSelector); ok {
+					guarded[vs.String()] = true
+				}
+				return nil
+			})
+		}
+		return nil
+	})
 	var sels []*promParser.VectorSelector
 	promParser.Inspect(node, func(n promParser.Node, _ []promParser.Node) error {
 		if vs, ok := n.(*promParser.VectorSelector); ok {
@@ -147,6 +159,7 @@ func c16Eval(r *hx.Run, cs c16Case) {
 				mine = append(mine, p)
 			}
 		}
+		hasFallback := guarded[vs.String()]
 		exempt := hasFallback || (cs.Comment != "" && strings.Contains(cs.Comment, "("+vs.Name+")")) || strings.HasPrefix(vs.Name, "ALERTS")
 		show := func() []string {
 			var o []string
@@ -247,7 +260,7 @@ func runC16(r *hx.Run, replay string) {
 				return n + `{job="nope"}`
 			}
 		}
-		switch rr.Intn(7) {
+		switch rr.Intn(10) {
 		case 0:
 			cs.Expr = sel()
 		case 1:
@@ -260,8 +273,15 @@ func runC16(r *hx.Run, replay string) {
 			cs.Expr = sel() + " > 0 and on(job) " + sel()
 		case 5:
 			cs.Expr = "sum(" + sel() + ") or vector(0)"
-		default:
+		case 6:
 			cs.Expr = "count(" + sel() + ") by (env) > 1"
+		case 7:
+			// a join with a fallback on one side and a conditional unless on another metric
+			cs.Expr = sel() + " " + hx.Pick(rr, []string{"/", "and", "*"}) + " (" + sel() + " or vector(1)) unless " + sel() + " > 0"
+		case 8:
+			cs.Expr = sel() + " unless " + sel() + " > 0"
+		default:
+			cs.Expr = "(" + sel() + " or vector(0)) + on() group_left() " + sel()
 		}
 		switch rr.Intn(8) {
 		case 0:
